@@ -30,11 +30,13 @@ func init() {
 			"held, every write with the exclusive lock; objects still local to their constructor are exempt; a function that touches a field without taking the lock is accepted only if every " +
 			"one of its call sites holds the lock (caller-holds helpers are decided, not assumed from names: no call site, use as a function value, interface dispatch or a `go` call disqualify); " +
 			"(G2) each call site of such a helper holds the lock in the mode the helper needs; (G3) a function that acquires one of these mutexes releases it, explicitly or by defer, on every " +
-			"exit. An unlocked access to a field that other sessions write is a data race; a lock kept across a return blocks every later session.",
+			"exit. An unlocked access to a field that other sessions write is a data race; a lock kept across a return blocks every later session. " +
+			"(R) isolation of read-only statements in the memory backend (ownership of the stored row slices): an SSA taint from every load of TableData.partitions in the read closure — the methods by which the types of package memory implement sql.Table, sql.IndexedTable, sql.StatisticsTable, sql.RowIter and sql.PartitionIter, closed under static calls and closures — through locals, re-slices (s[:n:n] only removes 'append writes in place'), struct fields (field-based), closures, interfaces and the parameters / results of every module function (sql, sql/sorters, sql/iters …) must reach no in-place mutation: element store, copy into, append in place, delete / clear / store on the stored map, sort.Slice / slices.Sort* and friends; sort.Sort / sort.Stable are covered through the element stores of the sorter's Swap. make+copy (or append to another slice) is the sanitizer.",
 		NotCovered: "structures without a mutex (BaseSession: one goroutine per session by design), mysql_db.MySQLDb (its RWMutex is handed out as Reader/Editor handles and sync.Locker values: not " +
 			"decidable with per-function lock state), plan.HashLookup.Mutex (vestigial by the authors' own comment; plan nodes are executed by one goroutine), mutation through methods of a field's own type, " +
-			"package-level variables (the extension planned in DESIGN.md is dropped: no exact 'reachable from Engine.Query after init' oracle), result isolation, the memory backend's documented lack of concurrent-write support",
-		Technique: "per-function must-hold lock-state dataflow over go/cfg + decided caller-holds helpers (least fixpoint over call sites) + constructor freshness",
+			"package-level variables (the extension planned in DESIGN.md is dropped: no exact 'reachable from Engine.Query after init' oracle), result isolation other than clause R, the memory backend's documented lack of concurrent-write support; " +
+			"for R: the cells of a stored row (rows leave the backend through the RowIter interface: `row[i] = v` by a plan node on a row it was handed is not tracked), stored slices passed through interface-dispatched calls or to functions without an analysed body other than the listed stdlib mutators (listed as a note), secondaryIndexStorage, read entry points that are not methods of the five interfaces (e.g. table functions, the stats provider)",
+		Technique: "per-function must-hold lock-state dataflow over go/cfg + decided caller-holds helpers (least fixpoint over call sites) + constructor freshness + interprocedural field-based SSA taint (stored-rows ownership)",
 		Run: func(c *Ctx) {
 			c.Rule("C36-G1", "every access to a guarded field of a table struct is under its mutex (write => exclusive), directly or through a decided caller-holds helper", 190)
 			c.Rule("C36-G2", "every call site of a caller-holds helper holds the lock in the required mode", 8)
@@ -45,6 +47,7 @@ func init() {
 					gbReportEntry(c, r, e, "C36-G1", "C36-G2", "C36-G3", c36Exceptions, c36ExitExceptions)
 				}
 			}
+			runC36R(c, c36rRepo)
 		},
 		Fixture: func(c *Ctx, fx *Prog) {
 			expectFixture(c, fx, "c36 good: locked accesses, defer, helper called under the lock, constructor, copy", nil,
@@ -60,8 +63,17 @@ func init() {
 					"C36-G3:Reg.Leaky/mu",
 				},
 				func(fc *Ctx) { runC36Fixture(fc, "testdata/c36/bad") })
+			expectFixture(c, fx, "c36r: read paths that mutate stored rows (through an iterator field and a sorter of another package, directly, in the stored map) must be reported; copies and editors must not",
+				[]string{
+					"C36-R:testdata/c36r/mem.AliasTable.PartitionRows/stored-rows",
+					"C36-R:testdata/c36r/mem.DirectTable.PartitionRows/stored-rows",
+					"C36-R:testdata/c36r/mem.TableData.count/stored-rows",
+				},
+				func(fc *Ctx) {
+					runC36R(fc, c36rParams{memRel: "testdata/c36r/mem", sqlRel: "testdata/c36r/sql", entryIfaces: []string{"Table", "StatisticsTable", "RowIter"}, tableDataType: "TableData", partitions: "partitions"})
+				})
 		},
-		FixturePkgs: []string{"./testdata/c36/good", "./testdata/c36/bad"},
+		FixturePkgs: []string{"./testdata/c36/good", "./testdata/c36/bad", "./testdata/c36r/sql", "./testdata/c36r/sorters", "./testdata/c36r/mem"},
 	})
 }
 
